@@ -242,6 +242,8 @@ def count_faults(acc, spec, out):
         if k in ("short_read", "open_error", "read_error"):
             bump(k, v)
     cfg = spec.get("cfg", {})
+    if cfg.get("nest") is not None:
+        bump("tasks_nested_on_one_thread")
     if cfg.get("policy") == "starve":
         bump("starve")
     if cfg.get("drop"):
